@@ -124,13 +124,18 @@ fn pass_2_internal(segment: &Segment, common_context: &CommonContext) -> Result<
                 }
             }
             Item::Def(alias, Expr::Ident(register)) => {
-                if let Some(_) = common_context.set_def(
-                    alias.to_lowercase(),
-                    Reg8::from_str(register.to_lowercase().as_str()).unwrap(),
-                ) {
+                let register = match Reg8::from_str(register.to_lowercase().as_str()) {
+                    Ok(register) => register,
+                    Err(_) => bail!("{} is not a register, {}", register, line),
+                };
+                if common_context.exist(alias) {
                     // TODO: add display current string of mistake and previous location
                     bail!("Identifier {} is used twice, {}", alias, line);
                 }
+                common_context.set_def(alias.to_lowercase(), register);
+            }
+            Item::Def(alias, _) => {
+                bail!("register expected in .def {}, {}", alias, line);
             }
             Item::Undef(alias) => {
                 if let None = common_context
